@@ -41,7 +41,7 @@ func (World) Stub(prop string) []string {
 	case "C43":
 		return []string{"throttler wrapper: delegates to the real NumGoRoutinesThrottler, parks the caller before CanProcess / StartProcessing / EndProcessing and counts running tasks",
 			"scheduler: testing/synctest bubble + simkit.Parker; the plan releases one parked goroutine at a time, synctest.Wait() is the barrier",
-			"intercepted-data factory, intercepted data, interceptor processor (parks in Validate and Save), antiflood handler, whitelist handler, preferred-peers holder (empty), trie data getter (parks per node), topic resolver sender (parks in Send), p2p messages"}
+			"intercepted-data factory, intercepted data, interceptor processor (parks in Validate and Save), antiflood handler (CanProcessMessage refuses planned messages; BlacklistPeer counted), whitelist handler, preferred-peers holder (empty), trie data getter (parks per node), topic resolver sender (parks in Send), p2p messages"}
 	}
 	return nil
 }
@@ -72,7 +72,7 @@ func (World) Rule(prop string) string {
 	case "C42":
 		return "constructor arguments over everything NewQuotaFloodPreventer accepts (base messages 1..2^31, byte quota 1..2^62, reserved 0..90 % (0 in half of the runs), increase factor >= 0 dyadic or arbitrary, threshold 0..50), LRU or size-LRU cacher with capacity >= peers; 20-300 events IncreaseLoad(peer,size) | Reset | ApplyConsensusSize(n) over 1-6 peers, sizes 0 .. beyond the byte quota; non-trivial = some peer was refused after having been accepted (a quota was reached); distinct = hash of full plan; states = (peer, accepted count, accepted bytes) at refusals"
 	case "C43":
-		return "component = SingleDataInterceptor | MultiDataInterceptor | TrieNodeResolver, max 1-3, 2-6 tasks (goroutines calling ProcessReceivedMessage) with message variants (ok with 1-3 items, undecodable, invalid, other shard, refused by antiflood, processor error), steps spawn(task) | release(i-th parked goroutine) inside a synctest bubble; non-trivial = some CanProcess was evaluated while another task was admitted or running; distinct = hash of full plan; states = (running, in-window) pairs seen at CanProcess"
+		return "component = SingleDataInterceptor | MultiDataInterceptor | TrieNodeResolver, max 1-3, 2-6 tasks (goroutines calling ProcessReceivedMessage) with message variants (ok with 1-3 items, undecodable, one item failing CheckValidity with a generic error / process.ErrInvalidTransactionVersion / process.ErrInvalidChainID (the blacklisting path), other shard, refused by antiflood, processor error), steps spawn(task) | release(i-th parked goroutine; negative = from the most recently parked) inside a synctest bubble; 35 % of the runs are poison-then-burst: 1-3 failing messages processed to their end, then max+1..max+2 valid messages admitted one after the other while their processing stays parked; non-trivial = some CanProcess was evaluated while another task was admitted or running; distinct = hash of full plan; states = (running, in-window) pairs seen at CanProcess"
 	}
 	return ""
 }
